@@ -601,7 +601,8 @@ def run(ctx):
         "split": {
             "proof_half": "obligations/discharged below count the theorems of coq/Props/PropC13.v (modelled panic sites, reply totality, id echo, error-not-silence at session/hub routing level); model tied to the code by the extracted-model correspondence run (model_correspondence)",
             "proof_half_drafty": "theorems c13_drafty_* over coq/Pure/Drafty.v (toTree / forEach / PlainText / Preview never panic, for every decoded document); tied to the code by running the extracted model and drafty.PlainText / drafty.Preview on the same generated documents (drafty_fuzz: outcome class, plain text, preview compared; law drafty-panic on the implementation's answers)",
-            "testing_half": "evaluations/input_distribution below are the malformed-stream fuzz (TestVerifFuzz): TESTING IN SUPPORT, no proof about Go code outside the two models",
+            "proof_half_slot_and_held_load": "theorems c13_inflight_* / c13_evict_without_init_test_* over coq/Sys/Inflight.v (every Add / Done site of Session.inflightReqs incl. the slow-consumer drop of broadcastToSessions, as an interleaving model) and c13_held_load_* over coq/Sys/HeldLoad.v (requests queued for a topic that is being loaded; who is answered with which id when the load ends); tied to the code by the structured driver TestVerifC13x (slow_consumers_and_held_load below: state after every operation / frames per session compared with the extracted models; laws inflight-slot-not-free, id-echo-held-load, unanswered-held-*, answered-twice-held-* on the implementation's trace)",
+            "testing_half": "evaluations/input_distribution below are the malformed-stream fuzz (TestVerifFuzz, now with slow consumers: connections whose send queue is full): TESTING IN SUPPORT, no proof about Go code outside the models",
         },
         "evaluations": stats["evaluations"] + stats.get("drafty", {}).get("evaluations", 0),
         "distinct_nontrivial": len(stats["nontrivial"]),
@@ -620,11 +621,16 @@ def run(ctx):
             "exactness of the trigger predicate (trigger -> panic) is shown by one witness per site, not for all inputs",
             "error code >= 400 for ill-formed / non-existent topic names is not stated: the implementation answers 3xx in some paths (reply, not silence)",
             "c13_drafty_unrepaired_statement (range check before /repo 6cc931e) and c13_default_access_unrepaired_statement (getDefaultAccess before /repo f52b053): REFUTED by vm_compute witnesses; both repairs are in /repo, the full theorems hold for the code as it is",
-            "panic-freedom of Go code outside the two models (JSON decoding, in-topic handlers below the modelled sites, store mappers, auth handlers, push adapters): not provable here, fuzz only",
+            "c13_evict_without_init_test_statement (Topic.unregisterSession without the test of msg.init): REFUTED by a vm_compute witness; the code as it is has the test, the full theorem c13_inflight_no_panic holds",
+            "c13_held_load_join_id_statement (clientMsg drain of topicInit answering with join.Id): REFUTED by a vm_compute witness; the code as it is answers with msg.Id, c13_held_load_id_echo holds",
+            "c13_held_load_answered_statement (code as it is): REFUTED by the model and on the implementation (known findings unanswered-sub-p2p-deleted-while-loading, unanswered-deltopic-owner-while-loading; topicinit-stuck-p2p-deleted-while-loading is outside the models); c13_held_load_answered_partial proved",
+            "Inflight.v has no topic unload / deletion / re-creation (C14's model); HeldLoad.v models ONE load; reply codes below the routing level are an oracle",
+            "panic-freedom of Go code outside the models (JSON decoding, in-topic handlers below the modelled sites, store mappers, auth handlers, push adapters): not provable here, fuzz only",
         ],
         "trusted_base": [
             "harness/overlay/server/zz_verif_c13_test.go (population, recover wrapper = stand-in for the recover-less read loops, quiescence detector of zz_verif_topic_test.go, stub media handler / validator), memverif adapter",
-            "tools/props/c13.py monitors (python restatement of the property on the implementation's answers), c13gen.py generators",
+            "tools/props/c13.py monitors (python restatement of the property on the implementation's answers), c13gen.py / c13slow.py generators",
+            "harness/overlay/server/zz_verif_c13x_test.go (clog = the session's drain loop stopped and its send buffer filled to capacity; held load = memverif call hook zz_hook.go parking the first adapter call made after the {sub}; hub-level quiescence while the load is held), harness/runner/r_c13x.ml (mapping of driver operations to model labels; presence broadcasts' choice of stuck connections taken from the implementation), tools/props/c13x.py (laws, comparison)",
             "harness/ext/c13.go (drafty.PlainText / Preview each under recover; its re-implementation of decodeAsDrafty / decodeAsStyle / decodeAsEntity and the uniseg segmentation hand the model the decoded document), harness/runner/r_c13d.ml, tools/props/c13drafty.py (comparison, TrimSpace applied to the model's text)",
             "NOT proved: panic-freedom of Go code outside the two models (encoding/json, drafty's decoder and copyLight, topic handlers below the modelled sites, store mappers, auth handlers): covered only by the fuzz runs above",
         ],
